@@ -132,17 +132,119 @@ func splitVotePlays(r *RNG) []synthPlay {
 	return out
 }
 
-// buildSynthDag creates identities, signs the events of a play list and fills
-// the DAG record.
+// A synthetic history is a list of steps: one "synth-init" (N identities) and
+// one "synth" step per event (A creator, B other-parent's creator or -1, Tx
+// payload, D timestamp increment, Kind "leave": the event carries the
+// creator's signed leave request). The list is the replay file's schedule, so
+// a synthetic run replays (and minimises) without its generator.
+
+type synthState struct {
+	heads []string
+	idx   []int
+	ts    int64
+}
+
+func (c *Cluster) execSynthStep(s *Step) {
+	c.stepNo++
+	progress.Add(1)
+	c.steps = append(c.steps, s)
+	switch s.Op {
+	case "synth-init":
+		for i := 0; i < s.N; i++ {
+			c.addIdentity()
+		}
+		c.genesisSet = append([]*SimNode{}, c.nodes...)
+		keys := []string{}
+		for _, m := range c.genesisSet {
+			keys = append(keys, m.pubHex)
+		}
+		c.vs = newVSModel(keys)
+		c.syn = &synthState{heads: make([]string, s.N), idx: make([]int, s.N), ts: 946684800}
+		for i := range c.syn.idx {
+			c.syn.idx[i] = -1
+		}
+	case "synth":
+		st := c.syn
+		if st == nil || s.A < 0 || s.A >= len(st.heads) || s.B >= len(st.heads) {
+			return
+		}
+		cr := c.nodes[s.A]
+		op := ""
+		if s.B >= 0 {
+			op = st.heads[s.B]
+			if op == "" {
+				return // the other side has no event yet
+			}
+		}
+		if st.heads[s.A] == "" && op == "" && st.idx[s.A] >= 0 {
+			return
+		}
+		var txs [][]byte
+		if len(s.Tx) > 0 {
+			txs = [][]byte{append([]byte{}, s.Tx...)}
+		}
+		var itxs []hg.InternalTransaction
+		if s.Kind == "leave" {
+			itx := hg.NewInternalTransactionLeave(*cr.peer())
+			itx.Sign(cr.key)
+			itxs = []hg.InternalTransaction{itx}
+			c.stats.probe("synthetic-leave-request")
+		}
+		st.ts += s.D
+		ev := newEvent(cr, st.idx[s.A]+1, st.heads[s.A], op, txs, itxs, nil, st.ts)
+		signEvent(ev, cr)
+		st.heads[s.A] = ev.Hex()
+		st.idx[s.A]++
+		c.dag.add(ev, 0, s.A)
+		c.stats.EventsCreated++
+	}
+}
+
+// playSteps turns plays into steps, drawing payloads and timestamps.
+func (c *Cluster) playSteps(r *RNG, plays []synthPlay) []*Step {
+	out := []*Step{}
+	for _, p := range plays {
+		s := &Step{Op: "synth", A: p.creator, B: p.other, D: int64(r.Intn(3))}
+		if r.Bool(0.35) {
+			c.synTxn++
+			s.Tx = []byte(fmt.Sprintf("synth-%d", c.synTxn))
+		}
+		out = append(out, s)
+	}
+	return out
+}
+
+// synthRun executes a synthetic run: recorded steps if given, else generated.
+func (c *Cluster) synthRun(spec *runSpec) {
+	c.synthetic = true
+	if spec.Steps != nil {
+		for _, s := range spec.Steps {
+			cp := *s
+			c.execSynthStep(&cp)
+		}
+	} else {
+		c.buildSynthDag(NewRNG(Mix(c.seed, 0x73796e)))
+	}
+	c.stats.probe("synthetic-dag")
+	c.dagReplay(c.cfg.Variants)
+}
+
+// buildSynthDag draws a synthetic history and executes its steps.
 func (c *Cluster) buildSynthDag(r *RNG) {
+	// membership mode has its own stream so that the other modes' histories do
+	// not depend on it
+	if r2 := NewRNG(Mix(c.seed, 0x6c656176)); r2.Bool(0.2) && os.Getenv("SIM_TEMPLATE_EXACT") == "" {
+		c.buildSynthLeaveDag(r2)
+		return
+	}
 	n := []int{4, 4, 4, 5, 6, 7}[r.Intn(6)]
 	cycles := r.Range(8, 22)
 	template := r.Bool(0.3) || os.Getenv("SIM_TEMPLATE_EXACT") != ""
 	if template {
 		n = 4
 	}
-	// near-miss search: draw abstract histories until the reference model finds
-	// one with a fragile vote (see refmodel.go)
+	// near-miss search: improve an abstract history until the reference model
+	// finds a fragile vote (see refmodel.go)
 	var searched []synthPlay
 	if !template && r.Bool(0.55) {
 		cn := []int{4, 5, 5, 5, 6, 7, 7}[r.Intn(7)]
@@ -177,22 +279,6 @@ func (c *Cluster) buildSynthDag(r *RNG) {
 			c.stats.probe("synthetic-near-miss-search-empty")
 		}
 	}
-	for i := 0; i < n; i++ {
-		c.addIdentity()
-	}
-	c.genesisSet = append([]*SimNode{}, c.nodes...)
-	keys := []string{}
-	for _, m := range c.genesisSet {
-		keys = append(keys, m.pubHex)
-	}
-	c.vs = newVSModel(keys)
-	heads := make([]string, n)
-	idx := make([]int, n)
-	for i := range idx {
-		idx[i] = -1
-	}
-	ts := int64(946684800)
-	txn := 0
 	plays := synthPlays(r, n, cycles)
 	if template {
 		plays = splitVotePlays(r)
@@ -200,44 +286,180 @@ func (c *Cluster) buildSynthDag(r *RNG) {
 	} else if searched != nil {
 		plays = searched
 	}
-	for _, p := range plays {
-		cr := c.nodes[p.creator]
-		op := ""
-		if p.other >= 0 {
-			op = heads[p.other]
-			if op == "" {
-				continue // the other side has no event yet
-			}
-		}
-		if heads[p.creator] == "" && op == "" && idx[p.creator] >= 0 {
-			continue
-		}
-		var txs [][]byte
-		if r.Bool(0.35) {
-			txn++
-			txs = [][]byte{[]byte(fmt.Sprintf("synth-%d", txn))}
-		}
-		ts += int64(r.Intn(3))
-		ev := newEvent(cr, idx[p.creator]+1, heads[p.creator], op, txs, nil, nil, ts)
-		signEvent(ev, cr)
-		heads[p.creator] = ev.Hex()
-		idx[p.creator]++
-		c.dag.add(ev, 0, p.creator)
-		c.stats.EventsCreated++
+	c.execSynthStep(&Step{Op: "synth-init", N: n})
+	for _, s := range c.playSteps(r, plays) {
+		c.execSynthStep(s)
 	}
-	c.stats.probe("synthetic-dag")
-	c.findNears()
 }
 
-// findNears runs the reference model over the record (static validator set)
-// and remembers the fragile votes as pairs of event hashes (y, z): y holds the
-// lopsided contrary vote, z really decides and does not descend from y.
-func (c *Cluster) findNears() {
+// ringPlays: every validator gossips with both neighbours, twice per cycle
+// (about one round per cycle, everybody strongly sees everybody).
+func ringPlays(n, cycles int) []synthPlay {
+	out := []synthPlay{}
+	for c := 0; c < cycles; c++ {
+		for k := 0; k < 2; k++ {
+			for i := 0; i < n; i++ {
+				a, b := (i+1)%n, i
+				if k == 1 {
+					a, b = i, (i+n-1)%n
+				}
+				out = append(out, synthPlay{a, b})
+			}
+		}
+	}
+	return out
+}
+
+// buildSynthLeaveDag: a history across a shrinking validator set. The last of
+// five (or six) validators files its leave request at the very beginning; a
+// regular prefix commits it, which fixes the round R at which the smaller set
+// becomes effective (read from a throw-away instance). The continuation is
+// then improved by local edits until the reference model, with the quorum
+// taken from the deciding round's set alone (weakQuorum: what DecideFame did
+// before fix "fame quorum across a shrinking set"), finds a decision in the
+// first rounds of the smaller set that a lagging node would take the other way.
+func (c *Cluster) buildSynthLeaveDag(r *RNG) {
+	n := 5
+	if r.Bool(0.2) {
+		n = 6
+	}
+	c.stats.probe("synthetic-leave-history")
+	c.execSynthStep(&Step{Op: "synth-init", N: n})
+	first := []synthPlay{}
+	for i := 0; i < n; i++ {
+		first = append(first, synthPlay{i, -1})
+	}
+	for _, s := range c.playSteps(r, first) {
+		c.execSynthStep(s)
+	}
+	c.execSynthStep(&Step{Op: "synth", A: n - 1, B: 0, D: 1, Kind: "leave"})
+	prefix := append(append([]synthPlay{}, first...), synthPlay{n - 1, 0})
+	R := -1
+	for try := 0; try < 4 && R < 0; try++ {
+		more := ringPlays(n, []int{5, 2, 2, 2}[try])
+		for _, s := range c.playSteps(r, more) {
+			c.execSynthStep(s)
+		}
+		prefix = append(prefix, more...)
+		probe := c.newInstance("probe", "inmem", 10000)
+		for _, e := range c.dag.order {
+			probe.insert(e)
+		}
+		if sets, err := probe.h.Store.GetAllPeerSets(); err == nil && probe.err == nil {
+			for rr, ps := range sets {
+				if len(ps) == n-1 && (R < 0 || rr < R) {
+					R = rr
+				}
+			}
+		}
+		probe.close()
+	}
+	if R < 0 {
+		c.stats.probe("synthetic-leave-not-committed")
+		return
+	}
+	small := make([]int, n-1)
+	for i := range small {
+		small[i] = i
+	}
+	mk := func() *refDag {
+		d := newRefDag(n)
+		d.deep = true
+		d.weakQuorum = true
+		d.members = func(rr int) []int {
+			if rr >= R {
+				return small
+			}
+			return d.all
+		}
+		return d
+	}
+	eval := func(suffix []synthPlay) *refFame {
+		d := mk()
+		addPlays(d, prefix)
+		addPlays(d, suffix)
+		return d.computeFame(int(hg.COIN_ROUND_FREQ), nil)
+	}
+	cur := gossipPlays(r, n, 60+r.Intn(15*n))[n:]
+	best := eval(cur)
+	iters := []int{3000, 8000, 15000}[r.Intn(3)]
+	for it := 0; it < iters && len(best.conflicts) == 0; it++ {
+		cand := mutatePlays(r, n, 0, cur)
+		if f := eval(cand); f.score >= best.score {
+			cur, best = cand, f
+		}
+	}
+	if len(best.weak) > 0 {
+		c.stats.probe("synthetic-leave-weak-decision")
+	}
+	if len(best.conflicts) > 0 {
+		c.stats.probe("synthetic-leave-conflict-in-model")
+	}
+	cur = append(cur, ringPlays(n-1, r.Range(4, 7))...)
+	for _, s := range c.playSteps(r, cur) {
+		c.execSynthStep(s)
+	}
+}
+
+// addPlays appends plays to an abstract DAG (same skipping rules as execSynthStep).
+func addPlays(d *refDag, plays []synthPlay) {
+	if d.heads == nil {
+		d.heads = make([]int, d.n)
+		for i := range d.heads {
+			d.heads[i] = -1
+		}
+	}
+	for _, p := range plays {
+		op := -1
+		if p.other >= 0 {
+			op = d.heads[p.other]
+			if op < 0 {
+				continue
+			}
+		}
+		if d.heads[p.creator] < 0 && op < 0 && len(d.byCI[p.creator]) > 0 {
+			continue
+		}
+		d.heads[p.creator] = d.add(p.creator, d.heads[p.creator], op, "")
+	}
+}
+
+// findNears runs the reference model over the record, with the validator sets
+// the reference instance derived, and remembers the fragile votes as pairs of
+// event hashes (y, z): y holds the lopsided contrary vote (or the decision a
+// lagging node would not take), z really decides and does not descend from y.
+func (c *Cluster) findNears(ref *instance) {
 	cid := map[string]int{}
 	for i, m := range c.genesisSet {
 		cid[m.pubHex] = i
 	}
 	d := newRefDag(len(c.genesisSet))
+	d.deep = true
+	if sets, err := ref.h.Store.GetAllPeerSets(); err == nil && len(sets) > 1 {
+		rounds := []int{}
+		byRound := map[int][]int{}
+		for rr, ps := range sets {
+			rounds = append(rounds, rr)
+			ids := []int{}
+			for _, p := range ps {
+				if id, ok := cid[p.PubKeyString()]; ok {
+					ids = append(ids, id)
+				}
+			}
+			sort.Ints(ids)
+			byRound[rr] = ids
+		}
+		sort.Ints(rounds)
+		d.members = func(r int) []int {
+			cur := d.all
+			for _, rr := range rounds {
+				if rr <= r {
+					cur = byRound[rr]
+				}
+			}
+			return cur
+		}
+	}
 	ids := map[string]int{}
 	for _, e := range c.dag.order {
 		sp, op := -1, -1
@@ -251,6 +473,18 @@ func (c *Cluster) findNears() {
 	}
 	f := d.computeFame(int(hg.COIN_ROUND_FREQ), nil)
 	c.refDag, c.refFame = d, f
+	c.synthNears = nil
+	conflicts := f.conflicts
+	if d.members != nil {
+		// where would a quorum taken from the deciding round's set alone go wrong?
+		d.weakQuorum = true
+		conflicts = append(conflicts, d.computeFame(int(hg.COIN_ROUND_FREQ), nil).conflicts...)
+		d.weakQuorum = false
+	}
+	for _, cf := range conflicts {
+		c.synthNears = append(c.synthNears, [2]string{d.hash[cf[1]], d.hash[cf[2]]})
+		c.stats.probe("synthetic-conflicting-decisions-in-model")
+	}
 	nears := append([]refNear{}, f.nears...)
 	sort.SliceStable(nears, func(i, j int) bool { return nears[i].strength() > nears[j].strength() })
 	for _, nr := range nears {
